@@ -47,8 +47,15 @@ fn rand_amount(r: &mut Rng, max_int: i64, max_dp: u32) -> Decimal {
 fn rand_rate(r: &mut Rng) -> (String, Decimal) {
     match r.below(10) {
         0..=4 => ("CAD".to_string(), Decimal::ONE),
-        5..=7 => ("USD".to_string(), Decimal::new(r.range(9000, 15000), 4)),
-        _ => ("XYZ".to_string(), Decimal::new(r.range(1, 300000), 4)),
+        // a broker's own conversion rate has more decimals than the Bank of Canada's four
+        5..=7 => (
+            "USD".to_string(),
+            if r.chance(30) { Decimal::new(r.range(900000, 1500000), 6) } else { Decimal::new(r.range(9000, 15000), 4) },
+        ),
+        _ => (
+            "XYZ".to_string(),
+            if r.chance(25) { Decimal::new(r.range(1, 99999), 8) } else { Decimal::new(r.range(1, 300000), 4) },
+        ),
     }
 }
 
@@ -682,6 +689,21 @@ pub fn gen_window_case(r: &mut Rng, enum_idx: Option<u64>) -> LedgerCase {
         rows.push((base + b, 15, mk_tx(base + b, &buyer, buy(rand_amount(r, 200, 2), Decimal::new(r.range(1000, 3000), 2)))));
         if r.chance(50) {
             rows.push((base + 60, 20, mk_tx(base + 60, &buyer, sell(Decimal::new(1, 0), Decimal::new(r.range(1000, 6000), 2), None))));
+        }
+    } else if r.chance(6) {
+        // dust at the end of the window: the seller sells all but a few ten-millionths of a share
+        // and a few ten-millionths are bought back — the affiliates together still hold shares,
+        // however few (the first purchase of the case gave the seller 100 shares)
+        let dust = Decimal::new(r.range(1, 9), 7);
+        let sold = Decimal::new(100, 0) - dust;
+        rows.push((base, 10, mk_tx(base, &seller, sell(sold, Decimal::new(r.range(1000, 4500), 2), None))));
+        let off = *r.pick(&[-20, -1, 1, 15, 30]);
+        let buyer = if r.chance(50) { seller.clone() } else { affs[1].clone() };
+        rows.push((base + off, 10 + if off < 0 { -5 } else { 5 }, mk_tx(base + off, &buyer, buy(Decimal::new(r.range(1, 9), 7), Decimal::new(r.range(1000, 4500), 2)))));
+        if r.chance(50) {
+            // ... or the dust is all that is left
+            let who = if buyer == seller { seller.clone() } else { buyer.clone() };
+            let _ = who;
         }
     } else if r.chance(8) {
         // a loss sale of many shares with a tiny repurchase (e.g. a reinvested dividend): the denied
